@@ -1,6 +1,7 @@
 import Atomman.C05
 import Atomman.C05_Hist
 import Atomman.C05_Src
+import Atomman.C05_Heap
 import Atomman.Generated.WrapSource
 open Atomman Atomman.C05
 open Atomman.Generated
@@ -28,6 +29,10 @@ open Atomman.Generated
     apinorm STYLE FLAG px py pz n v(9) o(3) pos(3n)     `system.normalize(STYLE, FLAG)` (generated `normalizeBody`)
       -> "R ret(0/1) | vects(9) origin(3) | pos(3n) | transform(9)"  or err:value / err:assert
     apilmp FLAG px py pz n …                            `atomman.lammps.normalize(system, FLAG)`
+    copyvals hex(key):id …                               entries of the copy made by the regenerated `Atoms.__deepcopy__` (`copyView`)
+      -> hex(key):id …
+    hilobox xlo xhi ylo yhi zlo zhi xy xz yz             `Box(xlo=…, …, yz=…)` through the generated `set_hi_los` / `set_lengths`
+      -> vects(9) origin(3)  or err:assert
     copykeys hex(key) …                                  keys of the atoms of the copy `normalize` works on (`-` = empty name)
       -> hex(key) …                                     (`copyKeys` on the generated explicit / reserved lists; ASCII names)
       FLAG / SCALE / STYLE: omit | none | b0 | b1 | i:<int> | s:<text without blanks> | f0 | f1 | np0 | np1
@@ -212,6 +217,28 @@ def handleApi (toks : List String) : Option String :=
     match ks.mapM unhex with
     | some keys => some (" ".intercalate ((copyKeys WrapSource.atomsCopyExplicit WrapSource.atomsCopyReserved keys).map hexOf))
     | none => some (err "format")
+  | "copyvals" :: kvs =>
+    -- entries `hex(key):value-id` of a view; the copy made by the regenerated `Atoms.__deepcopy__`
+    let parse := fun (t : String) => match t.splitOn ":" with
+      | [k, v] => (unhex k).map (fun k => (k, v))
+      | _ => none
+    match kvs.mapM parse with
+    | some view =>
+      some (" ".intercalate ((copyView WrapSource.atomsCopySource WrapSource.atomsCopyLoopSource
+        WrapSource.atomsCopyReserved view).map (fun kv => hexOf kv.1 ++ ":" ++ kv.2)))
+    | none => some (err "format")
+  | "hilobox" :: rest =>
+    -- `Box(xlo=, xhi=, ylo=, yhi=, zlo=, zhi=, xy=, xz=, yz=)`: generated `set_hi_los`, `set_lengths`, then the setter's clean-up
+    match parseRats? rest with
+    | some [xlo, xhi, ylo, yhi, zlo, zhi, xy, xz, yz] =>
+      let lx := WrapSource.hiLoLx xlo xhi ylo yhi zlo zhi
+      let ly := WrapSource.hiLoLy xlo xhi ylo yhi zlo zhi
+      let lz := WrapSource.hiLoLz xlo xhi ylo yhi zlo zhi
+      if WrapSource.lengthsOk lx ly lz then
+        some (showBox ⟨zeroSmall paramsRat.tiny (WrapSource.lengthsVects lx ly lz xy xz yz),
+          WrapSource.hiLoOrigin xlo xhi ylo yhi zlo zhi⟩)
+      else some (err "assert")
+    | _ => some (err "format")
   | "apilmp" :: fl :: px :: py :: pz :: n :: rest =>
     match parsePyArg fl, parseReq px py pz n rest with
     | some flag, some r =>
